@@ -31,13 +31,17 @@ func nOf(r *rand.Rand, n int, f func() string) []string {
 // written inside a quoted :initial-contents list.
 var elemTypes = []elType{
 	{"", func(r *rand.Rand, n int) []string { return nOf(r, n, func() string { return genElem(r, 1, 1) }) }},
-	{"fixnum", func(r *rand.Rand, n int) []string { return nOf(r, n, func() string { return fmt.Sprint(r.IntN(200) - 100) }) }},
+	{"fixnum", func(r *rand.Rand, n int) []string {
+		return nOf(r, n, func() string { return fmt.Sprint(r.IntN(200) - 100) })
+	}},
 	{"float", func(r *rand.Rand, n int) []string {
 		return nOf(r, n, func() string { return fw.Pick(r, []string{"0.5", "-0.25", "1.5", "3.25", "100.0"}) })
 	}},
 	{"character", func(r *rand.Rand, n int) []string { return nOf(r, n, func() string { return fw.Pick(r, charLits) }) }},
 	{"symbol", func(r *rand.Rand, n int) []string { return nOf(r, n, func() string { return fw.Pick(r, symNames) }) }},
-	{"string", func(r *rand.Rand, n int) []string { return nOf(r, n, func() string { return litString(fw.Pick(r, words)) }) }},
+	{"string", func(r *rand.Rand, n int) []string {
+		return nOf(r, n, func() string { return litString(fw.Pick(r, words)) })
+	}},
 }
 
 type vecOpts struct {
